@@ -9,6 +9,7 @@
 """
 import json
 import os
+import re
 
 import mir
 import rules
@@ -147,6 +148,7 @@ def run(ctx, rep):
     # leaves that are not checked where they are built (a bare `self` outside of a class) are rejected by the check of the finished tree
     from props import C16 as _c16
     _c16.expressions_are_typed_before_they_are_stored(F, rep, rule="C03.typed-tree")
+    prefix_words_are_reserved(ctx, F, rep)
 
 
 def every_argument_is_checked(F, rep, rule):
@@ -390,3 +392,57 @@ def optional_not_accepted_for_plain(F, rep, rule):
             rep.ob(rule, "%s checks the value against its slot: `T?` takes `T`, `T` does not take `T?`" % mir.short(f.path), st, why, c.span, fn=f.path,
                    key="%s|%s|%s" % (rule, mir.short(f.path), (c.span or "").split(":")[0].split("/")[-1] + "#%d" % n))
     rep.floor(rule + " value-into-slot checks", n, 5)
+
+
+
+def prefix_words_are_reserved(ctx, F, rep, rule="C03.unknown-name"):
+    """The declared-name lookup sits in the expression builder (parse_expr).  `value = math_expr | function | ident | list`: a text that math_expr
+    fails on falls through to the bare `ident` alternative, which Parser::value turns into a variable read without any lookup.  A PEG commits
+    to an optional prefix once it matched (`math_prefix? ~ math_primary`): on the text `typeof` followed by a line end, `typeof` is taken as
+    the prefix, no operand follows, math_expr fails and `typeof` becomes a variable name.  So every identifier-shaped word an optional
+    prefix of math_atom can consume has to be refused by Parser::ident (KEYWORDS).  Read from the grammar and from the initializer of KEYWORDS."""
+    import json
+    import extract
+    gpath = os.path.join(os.environ.get("VERIF_FACTS_DIR") or extract.ensure("default"), "grammar.json")
+    if not os.path.exists(gpath):
+        raise AnchorMissing("grammar.json (engine/gramdump)")
+    R = {r["name"]: r for r in json.load(open(gpath))["rules"]}
+    if "math_atom" not in R or "value" not in R:
+        raise AnchorMissing("grammar rules math_atom / value")
+
+    def alts(e):
+        return alts(e["a"]) + alts(e["b"]) if e["k"] == "choice" else [e]
+
+    def first_words(e, depth=0):
+        """Literal texts an expression can start with (through rule references; only what is needed here)."""
+        k = e["k"]
+        if k == "str":
+            return {e["v"]}
+        if k == "ident":
+            return first_words(R[e["v"]]["expr"], depth + 1) if e["v"] in R and depth < 8 else set()
+        if k == "choice":
+            return first_words(e["a"], depth) | first_words(e["b"], depth)
+        if k == "seq":
+            return first_words(e["a"], depth)
+        if k in ("opt", "rep", "rep1", "push", "pospred"):
+            return first_words(e["e"], depth)
+        return set()
+    # the bare ident alternative must come after math_expr for the fall-through to exist
+    names = [a.get("v") for a in alts(R["value"]["expr"])]
+    falls = "ident" in names and "math_expr" in names and names.index("ident") > names.index("math_expr")
+    e = R["math_atom"]["expr"]
+    lead = e["a"] if e["k"] == "seq" else e
+    words = sorted(w for w in (first_words(lead["e"]) if lead["k"] == "opt" else set()) if re.match(r"^[A-Za-z_][A-Za-z0-9_]*$", w))
+    kw = None
+    for f in F.crates["compiler"].fns:
+        if f.path.startswith("compiler::ast::ident::KEYWORDS::{closure"):
+            kw = {x[1] for x in rules.string_literals(f) if x[0] == "str"}
+    if kw is None:
+        raise AnchorMissing("compiler::ast::ident::KEYWORDS")
+    rep.floor(rule + " identifier-shaped prefix words of math_atom", len(words), 2)
+    rep.floor(rule + " reserved words", len(kw), 20)
+    for w in words:
+        ok = (w in kw) or not falls
+        rep.ob(rule, "the prefix word `%s` cannot be read as a variable name" % w, "ok" if ok else "violated",
+               "" if ok else "`%s` is not in KEYWORDS: `print %s` at the end of a line compiles to `load \"%s\"` (no declared-name lookup), which fails when it runs" % (w, w, w),
+               "compiler/src/grammar.pest", key="%s|prefix-word|%s" % (rule, w))
